@@ -70,8 +70,14 @@ package martianhttp
 //@   requires modIdle(m)
 //@   modifies m.mu.wheld, verify.RequestVerifier.gUnmetReq
 //@   ensures[reset-reaches-the-installed-request-modifier] ite(typeis(m.reqmod, verify.RequestVerifier), m.reqmod.gUnmetReq, 0) == 0
+// verifiers reset by replacing their error list without synchronisation of their own: the reset has to exclude the
+// traffic inside the tree (traffic holds the read lock), i.e. it runs under the WRITE lock
+//@   at call 0 of ResetRequestVerifications before assert[reset-excludes-traffic-inside-the-tree] m.mu.wheld
+//@   ensures[lock-released] modIdle(m)
 //@ func (*Modifier).ResetResponseVerifications
 //@   serves C13
 //@   requires modIdle(m)
 //@   modifies m.mu.wheld, verify.ResponseVerifier.gUnmetRes
 //@   ensures[reset-reaches-the-installed-response-modifier] ite(typeis(m.resmod, verify.ResponseVerifier), m.resmod.gUnmetRes, 0) == 0
+//@   at call 0 of ResetResponseVerifications before assert[reset-excludes-traffic-inside-the-tree] m.mu.wheld
+//@   ensures[lock-released] modIdle(m)
